@@ -373,7 +373,7 @@ const maxReplayAlloc = 1 << 22
 func replayObligation(e *Engine, o *Obligation, scratch string) map[string]interface{} {
 	res := map[string]interface{}{"confirmed": false}
 	pkgDir, harness, ok := harnessFor(o.Proc)
-	if ok && (harness == "reader" || harness == "writer") {
+	if ok && (harness == "reader" || harness == "writer" || harness == "xxh") {
 		// frame level: search driven by the obligation's subject (heap models are not API-reachable states)
 		focus := strings.ToLower(o.Name)
 		out, failed := runFrameHarness(pkgDir, harness, focus, scratch)
@@ -381,6 +381,9 @@ func replayObligation(e *Engine, o *Obligation, scratch string) map[string]inter
 		res["harness_output"] = truncate(out, 8000)
 		res["confirmed"] = failed
 		res["origin"] = "search around the obligation's subject with the frame-level harness (engine/harness/lz4_replay_test.go.txt)"
+		if harness == "xxh" {
+			res["origin"] = "comparison with an independent XXH32 over one-shot sums, incremental histories and totals around 2^32 (engine/harness/xxh32_replay_test.go.txt)"
+		}
 		return res
 	}
 	if !ok {
@@ -469,6 +472,9 @@ func harnessFor(proc string) (pkgDir, harness string, ok bool) {
 	case "lz4block.CompressorHC.CompressBlock", "lz4block.CompressBlockHC":
 		return filepath.Join(repoDir, "internal/lz4block"), "compresshc", true
 	}
+	if strings.HasPrefix(proc, "xxh32.") || proc == "lemmas.xxh" {
+		return filepath.Join(repoDir, "internal/xxh32"), "xxh", true
+	}
 	readerFuncs := []string{"lz4stream.Frame.ParseHeaders", "lz4stream.Frame.readUint32", "lz4stream.FrameDescriptor.initR", "lz4stream.FrameDataBlock.Read",
 		"lz4stream.FrameDataBlock.Uncompress", "lz4stream.Frame.CloseR", "lz4stream.Blocks.initR", "lz4.Reader.", "lz4.ValidFrameHeader"}
 	for _, p := range readerFuncs {
@@ -542,6 +548,9 @@ var _ = strconv.Itoa
 
 func runFrameHarness(pkgDir, harness, focus, scratch string) (string, bool) {
 	testSrc := filepath.Join(verifDir(), "engine", "harness", "lz4_replay_test.go.txt")
+	if harness == "xxh" {
+		testSrc = filepath.Join(verifDir(), "engine", "harness", "xxh32_replay_test.go.txt")
+	}
 	dst := filepath.Join(scratch, "zz_lz4verif_frame_replay_test.go")
 	data, err := os.ReadFile(testSrc)
 	if err != nil {
